@@ -203,6 +203,16 @@ func (w *World) execGateOp(ctx context.Context, toks []string) (bool, error) {
 		c.mu.Lock()
 		c.failPuts = n
 		c.mu.Unlock()
+	case "failrput":
+		// failrput p [n] : the next n (default 1) Puts of the remote-heads key on p's cache fail
+		n := 1
+		if len(toks) > 2 {
+			n = atoi(toks[2])
+		}
+		c := w.peers[atoi(toks[1])].cache
+		c.mu.Lock()
+		c.failRPuts = n
+		c.mu.Unlock()
 	case "stats":
 		w.printStats(atoi(toks[1]))
 	case "holdhook":
